@@ -51,6 +51,10 @@ def heap_env(x) -> (dict, Dict[int, int]):
             if tn in ("coroutine_wrapper", "async_generator_asend", "async_generator_athrow"):
                 ref = [r for r in gc.get_referents(o) if isinstance(r, GENLIKE)]
                 items.append({"id": k, "kind": "thingnw", "uw": ["one", ident(ref[0])] if ref else ["raise", 1]})
+            elif tn == "anext_awaitable":
+                # anext(ait, default): wraps the awaitable ait.__anext__() returned (first referent; the second is the default)
+                ref = gc.get_referents(o)
+                items.append({"id": k, "kind": "thingnw", "uw": ["one", ident(ref[0])] if ref else None})
             else:
                 items.append({"id": k, "kind": "thing", "uw": None})
         return k
@@ -77,7 +81,7 @@ class C03(PropCheck):
     pid = "C03"
     real_time_limit = 10.0
     rule = ("chains root in {coroutine, async generator, generator} x links from {await coroutine, await generator-based "
-            "coroutine, __await__ -> coroutine wrapper, __await__ -> generator, __anext__, asend, athrow, aclose, async for, "
+            "coroutine, __await__ -> coroutine wrapper, __await__ -> generator, __anext__, anext(x, default), asend, athrow, aclose, async for, "
             "yield from} x end in {trap, non-frame leaf}; exhaustive up to depth 2 (quick) / 3 (thorough) plus random up to "
             "depth 12 / 40, observed at every suspension point; also exhausted roots; non-trivial = at least one link; "
             "distinct = (spec, suspension point)")
@@ -273,6 +277,12 @@ class C03(PropCheck):
             tn = type(o).__name__
             if tn in ("coroutine_wrapper", "async_generator_asend", "async_generator_athrow"):
                 ref = [r for r in gc.get_referents(o) if isinstance(r, GENLIKE)]
+                if not ref:
+                    return o
+                o = ref[0]
+                continue
+            if tn == "anext_awaitable":
+                ref = gc.get_referents(o)
                 if not ref:
                     return o
                 o = ref[0]
